@@ -4,11 +4,15 @@ package c03
 import (
 	"encoding/json"
 	"fmt"
+	"net/http"
+	"net/http/httptest"
+	"net/url"
 	"os"
 	"strings"
 	"sync"
 	"testing"
 
+	"github.com/gookit/rux"
 	"pgregory.net/rapid"
 
 	"verifharness/chain"
@@ -258,3 +262,72 @@ func propRace(t *rapid.T) {
 }
 
 func TestRaceStress(t *testing.T) { rapid.Check(t, propRace) }
+
+// propRaceCache: a tiny route cache hammered by free-running goroutines that ask for a handful of dynamic paths.
+// Oracle: every single answer is the route and the parameter of ITS request (a lookup that is handed another
+// request's cache entry is cross-talk, with or without a data race), and no race report.
+func propRaceCache(t *rapid.T) {
+	ev.Case()
+	capacity := rapid.IntRange(1, 2).Draw(t, "cap")
+	r := rux.New(rux.CachingWithNum(uint16(capacity)))
+	if rapid.Bool().Draw(t, "handle405") {
+		r = rux.New(rux.CachingWithNum(uint16(capacity)), rux.HandleMethodNotAllowed)
+	}
+	h := func(name string) rux.HandlerFunc {
+		return func(c *rux.Context) { c.WriteString(name + ":" + c.Param("id")) }
+	}
+	r.GET("/users/{id}", h("user"))
+	r.GET("/posts/{id}", h("post"))
+	r.GET("/{id}/x", h("x"))
+	type q struct{ path, want string }
+	all := []q{{"/users/1", "user:1"}, {"/users/2", "user:2"}, {"/posts/1", "post:1"}, {"/posts/3", "post:3"}, {"/7/x", "x:7"}, {"/users/33", "user:33"}}
+	np := rapid.IntRange(2, 4).Draw(t, "npaths")
+	qs := rapid.SliceOfNDistinct(rapid.SampledFrom(all), np, np, func(x q) string { return x.path }).Draw(t, "paths")
+	ng := rapid.IntRange(4, ev.Pick(8, 16)).Draw(t, "goroutines")
+	per := rapid.IntRange(200, ev.Pick(600, 3000)).Draw(t, "requestsPerGoroutine")
+	if f := os.Getenv("VERIF_CASEFILE"); f != "" {
+		b, _ := json.Marshal(map[string]any{"test": "TestRaceCache", "goroutines": ng, "per_goroutine": per, "paths": fmt.Sprint(qs), "cap": capacity,
+			"rapid_seed": os.Getenv("VERIF_RAPID_SEED"), "rapid_checks": os.Getenv("VERIF_RAPID_CHECKS")})
+		_ = os.WriteFile(f, b, 0o644)
+	}
+	var wg sync.WaitGroup
+	errs := make(chan string, ng)
+	start := make(chan struct{})
+	for g := 0; g < ng; g++ {
+		wg.Add(1)
+		go func(g int) {
+			defer wg.Done()
+			<-start
+			for k := 0; k < per; k++ {
+				x := qs[(g+k)%len(qs)]
+				var got string
+				if k%2 == 0 {
+					rec := httptest.NewRecorder()
+					r.ServeHTTP(rec, &http.Request{Method: "GET", URL: &url.URL{Path: x.path}, Header: http.Header{}})
+					got = rec.Body.String()
+				} else if rt, ps, _ := r.Match("GET", x.path); rt != nil {
+					got = map[string]string{"/users/{id}": "user", "/posts/{id}": "post", "/{id}/x": "x"}[rt.Path()] + ":" + ps["id"]
+				}
+				if got != x.want {
+					select {
+					case errs <- fmt.Sprintf("GET %q answered %q, want %q (cache capacity %d, paths %v, %d goroutines)", x.path, got, x.want, capacity, qs, ng):
+					default:
+					}
+					return
+				}
+			}
+		}(g)
+	}
+	close(start)
+	wg.Wait()
+	ev.Eval()
+	ev.ClassN("cache-hammer-requests", ng*per)
+	select {
+	case msg := <-errs:
+		t.Fatalf("%s", msg)
+	default:
+	}
+	ev.NonTrivial(fmt.Sprint("cache", capacity, qs, ng, per), func() string { return fmt.Sprintf("cache capacity %d, paths %v, %d goroutines x %d", capacity, qs, ng, per) })
+}
+
+func TestRaceCache(t *testing.T) { rapid.Check(t, propRaceCache) }
